@@ -860,6 +860,9 @@ class WalletTransaction(Transaction):
             self.confirmations = 0
             self.pushed = True
             self.response_dict = srv.results
+            # Store the bytes which were pushed: signatures may have been added after the transaction was created
+            self.rawtx = self.raw()
+            self.size = len(self.rawtx)
             self.store()
 
             # Update db: Update spent UTXO's, add transaction to database
